@@ -1183,6 +1183,26 @@ class Builder:
                     bb = bb["e"]
                 if isinstance(pp, dict) and pp.get("k") == "ident" and not pp.get("by_ref") and isinstance(bb, dict) and bb.get("k") == "path" and bb.get("segs") == [pp["name"]]:
                     return self.pe(recv, env)
+                # `(a, b, c).map(|(_, x, _)| BODY)`: a tuple of parsers whose results are all dropped but one is
+                # `delimited(a, b, c)` / `preceded` / `terminated` — the sequence with that one item kept — mapped by |x| BODY
+                # (and just the sequence when BODY is x)
+                inner = self.pe(recv, env)
+                if isinstance(pp, dict) and pp.get("k") == "tuple" and isinstance(inner, dict) and inner.get("t") == "seq" and inner.get("tuple") and len(pp["elems"]) == len(inner["items"]):
+                    names = []
+                    for el in pp["elems"]:
+                        q_ = el
+                        while isinstance(q_, dict) and q_.get("k") in ("typed", "ref"):
+                            q_ = q_["pat"]
+                        names.append(q_.get("name") if q_.get("k") == "ident" and not q_.get("sub") else (None if q_.get("k") == "wild" else False))
+                    bound = [i_ for i_, n_ in enumerate(names) if n_]
+                    if False not in names and len(bound) == 1:
+                        seq = dict(inner, items=[dict(it_, keep=(i_ == bound[0])) for i_, it_ in enumerate(inner["items"])])
+                        seq.pop("tuple", None)
+                        if isinstance(bb, dict) and bb.get("k") == "path" and bb.get("segs") == [names[bound[0]]]:
+                            return seq
+                        f1 = dict(f0, params=[pp["elems"][bound[0]]])
+                        return N("map", e, p=seq, f=f1)
+                return N("map", e, p=inner, f=args[0])
             return N("map", e, p=self.pe(recv, env), f=args[0])
         if m == "value" and len(args) == 1:
             return N("value", e, p=self.pe(recv, env), v=args[0])
@@ -1216,7 +1236,10 @@ class Builder:
         if m == "fold" and len(args) == 2:
             return N("fold", e, p=self.pe(recv, env), init=args[0], step=args[1])
         if m in ("void",):
-            return N("value", e, p=self.pe(recv, env), v=None)
+            inner_v = self.pe(recv, env)
+            if isinstance(inner_v, dict) and inner_v.get("t") in ("peek", "notp", "eof"):
+                return inner_v  # a look-ahead consumes nothing and is used for success or failure only: its value is immaterial
+            return N("value", e, p=inner_v, v=None)
         if m in ("recognize", "take") and not args:
             return N("recognize", e, p=self.pe(recv, env))
         if m == "by_ref" and not args:
